@@ -32,6 +32,8 @@ pub use arc_payload::{ArcPayload, IntoPayload};
 
 mod value_allocator;
 pub use value_allocator::ValueAllocator;
+#[cfg(all(feature = "verif-hooks", kani))]
+pub(crate) use value_allocator::verif_harness as value_allocator_verif;
 
 mod cursor;
 pub use cursor::Cursor;
